@@ -354,6 +354,22 @@ pub fn alt<'a, O, A: Fn(&'a [u8]) -> IResult<&'a [u8], O>, B: Fn(&'a [u8]) -> IR
         forall|i: &'a [u8], r: IResult<&'a [u8], O>| #[trigger] h.ensures((i,), r) ==> r == alt2_fn(fun_of(l.0), fun_of(l.1), i),
 { |i: &'a [u8]| -> IResult<&'a [u8], O> { unimplemented!() } }
 
+// nom::bytes::streaming::tag(t) for a 2-byte tag over &[u8]: compare the common prefix first (a mismatch is
+// Error(Tag) even on a short input), then Incomplete(Size(missing)) if the input is shorter than the tag.   [bytes/streaming.rs]
+// ASSUMED here; OBLIGATION of Kani harness shim_tag (real nom, every tag value, inputs of length 0..4).
+pub open spec fn tag2_post(t: Seq<u8>, i: Seq<u8>, r: IResult<&[u8], &[u8]>) -> bool {
+    if i.len() >= 1 && i[0] != t[0] { r is Err && r->Err_0 is Error && r->Err_0->Error_0.code == ErrorKind::Tag && r->Err_0->Error_0.input@ =~= i }
+    else if i.len() >= 2 && i[1] != t[1] { r is Err && r->Err_0 is Error && r->Err_0->Error_0.code == ErrorKind::Tag && r->Err_0->Error_0.input@ =~= i }
+    else if i.len() < 2 { r == Err::<(&[u8], &[u8]), Err<Error<&[u8]>>>(Err::Incomplete(Needed::Size((2 - i.len()) as usize))) }
+    else { match r { Ok((rem, out)) => out@ =~= i.subrange(0, 2) && rem@ =~= i.subrange(2, i.len() as int), Err(_) => false } }
+}
+#[verifier::external_body]
+pub fn tag<'a>(t: [u8; 2]) -> (f: impl Fn(&'a [u8]) -> IResult<&'a [u8], &'a [u8]>)
+    ensures
+        forall|i: &'a [u8]| #[trigger] f.requires((i,)),
+        forall|i: &'a [u8], r: IResult<&'a [u8], &'a [u8]>| #[trigger] f.ensures((i,), r) ==> tag2_post(t@, i@, r),
+{ |i: &'a [u8]| -> IResult<&'a [u8], &'a [u8]> { unimplemented!() } }
+
 // nom::combinator::verify(first, second): run first; keep its Ok iff second(&output), otherwise
 // Error(make_error(input, Verify)) at the ORIGINAL input; errors of first propagated unchanged.   [combinator/mod.rs]
 // ASSUMED here; OBLIGATION of Kani harness shim_verify (real nom, bounded input).
